@@ -370,4 +370,9 @@ example :
       some ([1, 2, 3], [2]) := by
   decide +kernel
 
+/-- the views of the translated functions read `isinstance(x, C)` as "x is of class C": right, because on this run no class of
+    /repo's instruction / field modules is a subclass of another one the analyses test for (`itxn` is not a `Txn`, `gitxn` not a
+    `Gtxn`; only the `intc` family shares `IntcInstruction`) -/
+theorem C01_tie_class_hierarchy : Generated.classHierarchy = PyView.classHierarchySpec := Tie.class_hierarchy_tie
+
 end Tealer.C01
